@@ -157,23 +157,64 @@ func TestVerifC08Trace(t *testing.T) {
 			wt = "time"
 		}
 		thr := func() int {
-			switch rng.Intn(4) {
+			switch rng.Intn(6) {
 			case 0:
 				return 1 + rng.Intn(100)
 			case 1:
 				return 100
 			case 2:
 				return []int{25, 33, 34, 50, 66, 67, 75}[rng.Intn(7)]
+			case 3, 4:
+				// exact threshold boundaries: the integer percentages next to a rate k/tot that a small
+				// window can hold (the last one not above it, the first one above it)
+				tot := 2 + rng.Intn(8)
+				k := 1 + rng.Intn(tot)
+				t := 100*k/tot + rng.Intn(2)
+				if t > 100 {
+					t = 100
+				}
+				return t
 			}
 			return 50
 		}
 		pol := vx.M{"failT": thr(), "slowT": thr(), "wt": wt, "wsize": 1 + rng.Intn(5), "minCalls": 1 + rng.Intn(5),
 			"permitted": 1 + rng.Intn(3), "waitOpen": 1 + rng.Intn(5), "maxWaitHO": rng.Intn(4)}
+		failBias, slowBias := rng.Intn(100), 20
+		if ti%2 == 1 {
+			// every other trace aims at an exact threshold boundary: a window of tot results (preferably a
+			// rate that is not a whole percentage), the threshold the last whole percentage not above k/tot
+			// or the first one above it, and results drawn so that k of tot is what the window tends to hold
+			tot, k := 2+rng.Intn(7), 1
+			for try := 0; try < 3; try++ {
+				tot = 2 + rng.Intn(7)
+				k = 1 + rng.Intn(tot)
+				if 100*k%tot != 0 {
+					break
+				}
+			}
+			t := 100 * k / tot
+			if rng.Intn(3) > 0 && t < 100 {
+				t++
+			}
+			if t < 1 {
+				t = 1
+			}
+			if rng.Intn(3) == 0 {
+				pol["slowT"], pol["failT"] = t, 100
+				slowBias, failBias = 100*k/tot, rng.Intn(10)
+			} else {
+				pol["failT"], pol["slowT"] = t, 100
+				failBias, slowBias = 100*k/tot, rng.Intn(10)
+			}
+			if rng.Intn(4) > 0 {
+				pol["wt"], pol["wsize"] = "count", tot
+			}
+			pol["minCalls"] = 1 + rng.Intn(tot)
+		}
 		clk := verifInstallClock(time.Duration(rng.Intn(500)) * time.Millisecond)
 		cb := New(verifPolicy(pol))
 		w.Emit(vx.M{"ev": "reset", "pol": pol})
 		var pend []uint32
-		failBias := rng.Intn(100)
 		slowFails := rng.Intn(4) // 0: failed calls are all fast; n: one failed call in n is slow as well
 		for s := 0; s < nSteps; s++ {
 			x := rng.Intn(100)
@@ -201,7 +242,7 @@ func TestVerifC08Trace(t *testing.T) {
 					if slowFails > 0 && rng.Intn(slowFails) == 0 {
 						r = "failslow"
 					}
-				} else if y < failBias+20 {
+				} else if y < failBias+slowBias {
 					r = "slow"
 				}
 				verifRecord(cb, id, r)
